@@ -1194,7 +1194,17 @@ def install(reg):
     def _stale(label="stale"):
         return TheoryObj("stale", label=label, fields={"__overloads__": True})
     reg.theory_methods[("stale", "__getitem__")] = lambda I, o, a, k: _stale(f"{o.label}[..]")
-    reg.theory_methods[("stale", "get")] = lambda I, o, a, k: _stale(f"{o.label}.get(..)")
+    def _stale_get(I, o, a, k):
+        vk = o.fields.get("vkind")
+        if vk is None:
+            return _stale(f"{o.label}.get(..)")
+        # a dict with values of a known scalar type left by an earlier call: the key may be absent, else any value of that type
+        if I.ctx.flip("stale-dict-key-absent"):
+            return a[1] if len(a) > 1 else None
+        c = I.ctx
+        return {"str": lambda: SStr(c.fresh_str("stale_val")), "int": lambda: SInt(c.fresh_int("stale_val")), "bool": lambda: SBool(c.fresh_bool("stale_val"))}[vk]()
+    reg.theory_methods[("stale", "get")] = _stale_get
+    reg.theory_methods[("stale", "__setitem__")] = lambda I, o, a, k: None
     reg.theory_methods[("stale", "__eq__")] = lambda I, o, a, k: SBool(I.ctx.fresh_bool("stale_eq"))
     reg.theory_methods[("stale", "__ne__")] = lambda I, o, a, k: SBool(I.ctx.fresh_bool("stale_ne"))
     reg.theory_methods[("stale", "__contains__")] = lambda I, o, a, k: SBool(I.ctx.fresh_bool("stale_in"))
